@@ -309,9 +309,6 @@ func (r *Registry) mk(si *structInfo, vals []string) string {
 
 // strLit returns the SMT constant standing for a Go string literal.
 func (r *Registry) strLit(s string) string {
-	if r.nativeStr {
-		return smtStringLit(s)
-	}
 	if c, ok := r.strLits[s]; ok {
 		return c
 	}
@@ -387,9 +384,9 @@ func (r *Registry) zeroOfSort(s string, t types.Type) string {
 }
 
 // prelude emits sort/datatype/heap-independent declarations.
-func (r *Registry) prelude() string {
+func (r *Registry) prelude(native bool) string {
 	var b strings.Builder
-	if r.nativeStr {
+	if native {
 		b.WriteString("(define-sort Str () String)\n")
 		b.WriteString("(define-fun slen ((s Str)) Int (str.len s))\n")
 		b.WriteString("(define-fun scat ((a Str) (b Str)) Str (str.++ a b))\n")
@@ -443,9 +440,16 @@ func (r *Registry) prelude() string {
 		}
 		b.WriteString("))))\n")
 	}
-	if !r.nativeStr {
+	if native {
+		for i, s := range r.strOrder {
+			fmt.Fprintf(&b, "(define-fun str!%d () Str %s)\n", i, smtStringLit(s))
+		}
+	} else {
 		for i, s := range r.strOrder {
 			fmt.Fprintf(&b, "(declare-fun str!%d () Str) ; %q\n(assert (= (slen str!%d) %d))\n", i, s, i, len(s))
+		}
+		if e, ok := r.strLits[""]; ok {
+			fmt.Fprintf(&b, "(assert (forall ((x Str)) (! (= (scat %s x) x) :pattern ((scat %s x)))))\n(assert (forall ((x Str)) (! (= (scat x %s) x) :pattern ((scat x %s)))))\n", e, e, e, e)
 		}
 		if len(r.strOrder) > 1 {
 			b.WriteString("(assert (distinct")
